@@ -412,7 +412,7 @@ pub fn generate(rng: &mut Rng, fault_free: bool, focus: &str) -> TScenario {
     };
     let lat = *rng.pick(&[0.0, 35.0, -35.0, 60.0, -60.0, 85.0, -85.0, 89.9, -89.9, 35.0, 52.0]);
     let lon = *rng.pick(&[0.0, 80.0, -80.0, 179.95, -179.95, -80.0, 4.0]);
-    let max_range = *rng.pick(&[0.0, 5.0, 50.0, 500.0, 500.0, 500.0, 2000.0, 1e9]);
+    let max_range = *rng.pick(&[0.0, 5.0, 50.0, 500.0, 500.0, 500.0, 2000.0, 1e9, 1e308, 25_000.0, 40_030.0]);
     let filter_t: u64 = *rng.pick(&[0u64, 1, 1, 2, 2, 5, 5, 60, 120, 1 << 40, i64::MAX as u64, 1 << 63, u64::MAX]);
     let prune_mode = if focus == "C15" { rng.below(2) } else { rng.below(3) }; // 0 every delivery, 1 sporadic, 2 never
     // thorough tier: a third of the runs use the deeper bounds, the rest stay short and diverse
@@ -695,6 +695,18 @@ pub fn generate(rng: &mut Rng, fault_free: bool, focus: &str) -> TScenario {
     TScenario { lat, lon, max_range, events }
 }
 
+impl TrackerEngine {
+    fn expected_probes_std(&self) -> Vec<&'static str> {
+        match self.prop {
+            "C12" => vec!["second_frame_of_address", "df18_for_known_address", "non_es_frame", "re_add_after_expiry", "isolation_replay_with_interleaved_traffic", "more_than_100_distinct_addresses", "more_than_4096_tracked_at_once", "contact_with_100000_messages"],
+            "C13" => vec!["range_reject", "jump_reject", "pair_accepted", "accept_with_previous_position", "clear_of_published_position", "acquisition", "publication_at_high_latitude", "publication_across_antimeridian", "same_parity_replaces_stored_report", "threshold_band_or_dont_care"],
+            "C14" => vec!["callsign_changed", "velocity_without_information_after_valid", "details_available", "position_without_details_altitude_missing", "track_with_three_positions", "current_position_republished", "track_longer_than_2048"],
+            "C14x" => vec![],
+            _ => vec!["elapsed_equals_threshold_exactly", "elapsed_one_ns_below_threshold", "prune_on_empty_tracker", "all_expire_at_once", "heard_again_after_expiry", "non_es_frame_must_not_refresh", "prune_with_clock_before_last_heard"],
+        }
+    }
+}
+
 impl Engine for TrackerEngine {
     type Sc = TScenario;
 
@@ -794,13 +806,11 @@ impl Engine for TrackerEngine {
         })
     }
     fn expected_probes(&self) -> Vec<&'static str> {
-        match self.prop {
-            "C12" => vec!["second_frame_of_address", "df18_for_known_address", "non_es_frame", "re_add_after_expiry", "isolation_replay_with_interleaved_traffic", "more_than_100_distinct_addresses", "more_than_4096_tracked_at_once", "contact_with_100000_messages"],
-            "C13" => vec!["range_reject", "jump_reject", "pair_accepted", "accept_with_previous_position", "clear_of_published_position", "acquisition", "publication_at_high_latitude", "publication_across_antimeridian", "same_parity_replaces_stored_report", "threshold_band_or_dont_care"],
-            "C14" => vec!["callsign_changed", "velocity_without_information_after_valid", "details_available", "position_without_details_altitude_missing", "track_with_three_positions", "current_position_republished", "track_longer_than_2048"],
-            "C14x" => vec![],
-            _ => vec!["elapsed_equals_threshold_exactly", "elapsed_one_ns_below_threshold", "prune_on_empty_tracker", "all_expire_at_once", "heard_again_after_expiry", "non_es_frame_must_not_refresh", "prune_with_clock_before_last_heard"],
-        }
+        let v = self.expected_probes_std();
+        // no clock and no expiry in the alloc-only build
+        #[cfg(feature = "alloc_only")]
+        let v: Vec<&'static str> = v.into_iter().filter(|p| !p.contains("expir")).collect();
+        v
     }
     fn components(&self) -> Value {
         json!({
